@@ -7,10 +7,12 @@
 (* interleavings of plain / bypass rotations that succeed or fail (wrong proof, *)
 (* malformed candidate, missing or wrong operator authorisation, bypass with a   *)
 (* retained older set) up to 4 epochs.  One cfg per delay (0, 1, 10, and 10      *)
+(* with the absolute clock at 0 / near the top of u64 at deployment, and 10       *)
 (* units of 2^40 seconds).  lastRot is not observable through the API: it is     *)
 (* checked through the accept/reject behaviour of every later rotation.          *)
 EXTENDS Gateway, Json
-CONSTANTS QtScale, MaxNow
+CONSTANTS QtScale, MaxNow,
+          T0   \* absolute ledger time of the deployment: a number of seconds, or "top" = u64::MAX - 1000
 VARIABLE st
 
 MC_Sets ==
@@ -81,7 +83,7 @@ Types == TypeOK(st) /\ LookupsInverse(st)
 -----------------------------------------------------------------------------
 Inst == [module |-> "Gateway", Sets |-> Sets, Keys |-> Keys, Msgs |-> Msgs, Cap |-> Cap,
          Retention |-> Retention, MinDelay |-> MinDelay, Probes |-> <<>>,
-         scale |-> [Q |-> "1", Qt |-> QtScale, t0 |-> 1000000]]
+         scale |-> [Q |-> "1", Qt |-> QtScale, t0 |-> T0]]
 ASSUME PrintT(<<"INST", ToJson(Inst)>>)
 Dump == \A a \in Acts(st) :
     LET r == Apply(st, a) IN
